@@ -141,12 +141,16 @@ impl<'a> ValGen<'a> {
             Type::Integer { c, .. } => Val::Int(self.gen_int(c)),
             Type::Enumerated { root, ext } => {
                 let n = root.len() + ext.as_ref().map(|e| e.len()).unwrap_or(0);
-                let idx = match self.rng.below(4) {
+                let mut idx = match self.rng.below(4) {
                     0 => 0,
                     1 => n - 1,
                     2 => root.len() - 1,
                     _ => self.rng.usize_below(n),
                 };
+                // normally-small numbers change form at 64
+                if n - root.len() > 64 && self.rng.chance(1, 3) {
+                    idx = root.len() + *self.rng.pick(&[62usize, 63, 64, 65]).min(&(n - root.len() - 1));
+                }
                 Val::Enum(idx)
             }
             Type::BitString { size, .. } => {
@@ -216,7 +220,9 @@ impl<'a> ValGen<'a> {
             }
             Type::Choice { root, ext } => {
                 let n = root.len() + ext.as_ref().map(|e| e.len()).unwrap_or(0);
-                let idx = if ext.is_some() && n > root.len() && self.rng.below(16) < self.ext_bias {
+                let idx = if n - root.len() > 64 && self.rng.chance(1, 3) {
+                    root.len() + *self.rng.pick(&[62usize, 63, 64, 65]).min(&(n - root.len() - 1))
+                } else if ext.is_some() && n > root.len() && self.rng.below(16) < self.ext_bias {
                     root.len() + self.rng.usize_below(n - root.len())
                 } else {
                     self.rng.usize_below(root.len())
